@@ -2,9 +2,10 @@
 # seeded_matrix.sh [own|all] [ids...] : run checks against every seeded change on a scratch
 # worktree of /repo (never on /repo itself); writes /verif/seeded/<id>/result.json.
 MODE=${1:-own}; shift
-W=/var/tmp/seedmc-mx
-T=/var/tmp/seedmc-mx-target
-OUT=/var/tmp/seedmc-mx-out
+SHARD=${SHARD:-0}
+W=/var/tmp/seedmc-mx$SHARD
+T=/var/tmp/seedmc-mx-target$SHARD
+OUT=/var/tmp/seedmc-mx-out$SHARD
 rm -rf $W; git -C /repo worktree prune
 git -C /repo worktree add -q --detach $W HEAD || exit 2
 mkdir -p $OUT
